@@ -32,6 +32,27 @@ CHECKS = [
         "by the property's quantifier).",
         "machine-checked proof (Coq invariant + measure over an LTS) + trace correspondence under a deterministic scheduler",
         "DESIGN.md section 5, C03"),
+    chk("C01",
+        "Coq theorems: the serial walk's callbacks are exactly the live non-leaf tiles of the sub-pyramid, each once, "
+        "children first (walk_serial_spec with C13's enumeration theorems), for every depth/kind/filter/apex; the parallel "
+        "walk is a Gallina LTS (dispatcher, ready/done queues with per-process feeders, readiness table, workers with "
+        "non-atomic callbacks) whose theorems are being extended (see Properties/C01.v for what is proved). Tie to /repo: "
+        "real Pyramid.walk(parallel=k) runs unmodified under a deterministic scheduler and every trace is replayed on the "
+        "LTS in Coq (enabled sets per step, callback start/end log, outcome); real fork runs judged by the predicate.",
+        "Trusted: Coq kernel + vm_compute, Model/WalkPar.v, Model/Reducer.v, harness/detsched.py fakes; fairness for "
+        "termination; Empty only on an empty pipe.",
+        "machine-checked proof (Coq) + trace correspondence under a deterministic scheduler", "DESIGN.md section 5, C01"),
+    chk("C19",
+        "The faithful LTS models of the current code refute the property (Coq theorems c19_visit_returns_normally_refuted, "
+        "c19_visit_hangs_refuted/deadlock, c19_walk_hangs_refuted, each a concrete schedule evaluated by the kernel); the "
+        "witnesses are reproduced on the implementation on every run and are listed in known_findings.json (9 keys: "
+        "stage x {returned-normally, hang}). Proved for every schedule: crash_visible (a raising item was handed out iff "
+        "some worker has exit status 1), i.e. what a repair must inspect. Any other outcome class, stage or a serial-mode "
+        "swallow is reported as a violation.",
+        "Trusted: as C03/C01. The repair (liveness/exit-status checks plus queue teardown) was judged not small and safe; "
+        "see DESIGN.md section 6.",
+        "machine-checked refutation witnesses + invariant proof (Coq) + fault-injection correspondence under a deterministic scheduler",
+        "DESIGN.md section 5, C19"),
 ]
 
 _PENDING = "check not built yet in this round (design in DESIGN.md section 5); will be claimed when its model, theorems and correspondence exist"
